@@ -298,9 +298,11 @@ impl<'p> Harness<'p> {
                 continue;
             }
             let n = self.model.node(x);
-            if !n.valid {
+            if n.dead {
                 continue;
             }
+            // (a node the model holds to be invalid because an input is may still be valid in the
+            // engine if nothing needed it since: it is then linked like any other, and dropped)
             if let Some((b, _)) = n.scope {
                 let bn = self.model.node(b);
                 let bind_ok = bn.valid && (self.necessary.contains(&b) || will.contains(&b));
@@ -308,7 +310,7 @@ impl<'p> Harness<'p> {
                     return false;
                 }
             }
-            let stable = stable && self.model.valid_when_linked(x, &mut memo);
+            let stable = stable && n.valid && self.model.valid_when_linked(x, &mut memo);
             seen.insert(x);
             if stable {
                 will.insert(x);
@@ -1589,7 +1591,7 @@ impl<'p> Harness<'p> {
                 let cone = self.model.link_cone(&[self.obs[oi].node]);
                 let orphan = cone.iter().any(|t| {
                     let n = self.model.node(*t);
-                    n.valid
+                    !n.dead
                         && match n.scope {
                             Some((b, _)) => !all.contains(&b) || !self.model.node(b).valid,
                             None => false,
